@@ -1,4 +1,5 @@
 import Reduino.Lang.Libs
+import Reduino.Props.C13
 /-
   Helper lemmas for C14 (library deps / includes / instances agree).
 -/
@@ -70,5 +71,39 @@ theorem mem_libs (ds : List Decl) (k : Kind) (n : String) (hn : libName k = some
   · intro hany
     refine ⟨k, ?_, by simp [hany, hn]⟩
     cases k <;> simp_all [libName]
+
+open Reduino.Props.C13 in
+theorem wfLib_servo : WfLib "Servo".toList :=
+  ⟨⟨by decide, by decide⟩, by decide, by decide, by decide⟩
+
+open Reduino.Props.C13 in
+theorem wfLib_lcd : WfLib "LiquidCrystal".toList :=
+  ⟨⟨by decide, by decide⟩, by decide, by decide, by decide⟩
+
+open Reduino.Props.C13 in
+theorem wfLib_lcdI2c : WfLib "LiquidCrystal_I2C".toList :=
+  ⟨⟨by decide, by decide⟩, by decide, by decide, by decide⟩
+
+theorem libs_map_wf (ds : List Decl) :
+    ∀ l ∈ (libs ds).map String.toList, Reduino.Props.C13.WfLib l := by
+  intro l hl
+  rw [List.mem_map] at hl
+  rcases hl with ⟨m, hm, rfl⟩
+  rcases libs_names ds m hm with rfl | rfl | rfl
+  · exact wfLib_servo
+  · exact wfLib_lcd
+  · exact wfLib_lcdI2c
+
+theorem libs_sublist (ds : List Decl) : (libs ds).Sublist ["Servo", "LiquidCrystal", "LiquidCrystal_I2C"] := by
+  have h : (libs ds).Sublist (order.filterMap libName) := by
+    unfold libs
+    simp only [order, List.filterMap_cons, List.filterMap_nil]
+    cases ds.any (·.kind = Kind.servo) <;> cases ds.any (·.kind = Kind.lcdPar) <;>
+      cases ds.any (·.kind = Kind.lcdI2c) <;> simp [libName]
+  exact h
+
+theorem libs_map_nodup (ds : List Decl) : ((libs ds).map String.toList).Nodup := by
+  refine List.Sublist.nodup ((libs_sublist ds).map String.toList) ?_
+  decide
 
 end Reduino.Lemmas.C14
